@@ -38,6 +38,8 @@ separated by ` | `, or `value-error` / `index-error` / `key-error` / `type-error
                                -> ok nr nc : entries | id dof …            (formtran; a matrix section is `se : nr nc v … ; …`)
   fulvs <seup> <sedn> <keepcset> <shortcut> <gset> | (5) | (5 matrices) | ulvs      -> ok one / ok nr nc : entries   (formulvs)
   fdrm <seup> <sedn> <gset> 1 <g>|2 | (5) | (5 matrices) | ulvs | request           -> ok nr nc : entries | id dof …  (formdrm)
+  qftran / qfulvs / qfdrm                      the same three with rational entries `n/d` (the nas2cam files of pyYeti's tests;
+                                               qfulvs, qfdrm without the ulvs section), replies with rational entries
   addulvs <sedn> <keepcset> <shortcut> <gset> | (5) | (5 matrices) | ulvs | se…     -> ok se : one ; se : nr nc : entries ; …
        (ulvs section: `none` = no such key, else `dict se : one ; se : nr nc v …`)
   usetprt | id dof word … | * or names         -> ok names | id dof dof# n … ; …  / ok none      (usetprt: returned table)
@@ -97,6 +99,38 @@ def matOf (s : String) : Option (M Int) :=
       else some ⟨(List.range nr.toNat).map (fun i => (vals.drop (i * nc.toNat)).take nc.toNat), nc.toNat⟩
   | _ => none
 
+/-- a rational `n/d` or an integer -/
+def ratOf (t : String) : Option Rat :=
+  match t.splitOn "/" with
+  | [n] => n.toInt?.map (fun i => (i : Rat))
+  | [n, d] => match n.toInt?, d.toNat? with
+      | some n, some d => if d = 0 then none else some ((n : Rat) / (d : Rat))
+      | _, _ => none
+  | _ => none
+
+/-- `nr nc v …` with rational entries -/
+def matOfQ (s : String) : Option (M Rat) :=
+  match toks s with
+  | nr :: nc :: vals =>
+      match nr.toNat?, nc.toNat?, vals.mapM ratOf with
+      | some nr, some nc, some vs =>
+          if vs.length ≠ nr * nc then none
+          else some ⟨(List.range nr).map (fun i => (vs.drop (i * nc)).take nc), nc⟩
+      | _, _, _ => none
+  | _ => none
+
+def nasTOfQ (secs : List String) : Option (NasT Rat) :=
+  match secs with
+  | [sl, us, dn, mp, up, a, b, c, d, e] => do
+      let nas ← nasOf sl us dn mp up
+      let got ← dictOf a matOfQ
+      let goq ← dictOf b matOfQ
+      let gm ← dictOf c matOfQ
+      let pha ← dictOf d matOfQ
+      let phg ← dictOf e matOfQ
+      pure { nas, got, goq, gm, pha, phg }
+  | _ => none
+
 def nasTOf (secs : List String) : Option (NasT Int) :=
   match secs with
   | [sl, us, dn, mp, up, a, b, c, d, e] => do
@@ -142,6 +176,10 @@ def replyT {α} (r : Except TErr α) (f : α → String) : String :=
 def showM (m : M Int) : String := s!"{m.r.length} {m.c} : " ++ showL m.r.flatten
 def showU : Ulvs Int → String | .one => "one" | .mat m => showM m
 def mks : Masks := Masks.ofTable Generated.UsetMask.mask
+def showQ (x : Rat) : String := if x.den = 1 then toString x.num else s!"{x.num}/{x.den}"
+def showMQ (m : M Rat) : String := s!"{m.r.length} {m.c} : " ++ " ".intercalate (m.r.flatten.map showQ)
+def showUQ : Ulvs Rat → String | .one => "one" | .mat m => showMQ m
+def keyOf (i d : Nat) : List Int := [(i : Int), (d : Int)]
 
 def optI : Option Int → String | some v => toString v | none => "None"
 def parseOptI (s : String) : Option (Option Int) :=
@@ -251,6 +289,21 @@ def answer (line : String) : String :=
       | some seup, some sedn, some nt, some ul, some rq =>
           replyT (formdrm (fun i d => [(i : Int), (d : Int)]) mks nt ul seup rq sedn (gset = "1")) (fun r => showM r.1 ++ " | " ++ showL (flat2 r.2))
       | _, _, _, _, _ => "bad-op"
+  | "qftran" :: se :: gset :: kind, [s1, s2, s3, s4, s5, a, b, c, d, e, rq] =>
+      match se.toNat?, nasTOfQ [s1, s2, s3, s4, s5, a, b, c, d, e], request kind rq with
+      | some se, some nt, some rq =>
+          replyT (formtran keyOf mks nt se rq (gset = "1")) (fun r => showMQ r.1 ++ " | " ++ showL (flat2 r.2))
+      | _, _, _ => "bad-op"
+  | ["qfulvs", seup, sedn, kc, sc, gset], [s1, s2, s3, s4, s5, a, b, c, d, e] =>
+      match seup.toNat?, sedn.toNat?, nasTOfQ [s1, s2, s3, s4, s5, a, b, c, d, e] with
+      | some seup, some sedn, some nt =>
+          replyT (formulvs keyOf mks nt none seup sedn (kc = "1") (sc = "1") (gset = "1")) showUQ
+      | _, _, _ => "bad-op"
+  | "qfdrm" :: seup :: sedn :: gset :: kind, [s1, s2, s3, s4, s5, a, b, c, d, e, rq] =>
+      match seup.toNat?, sedn.toNat?, nasTOfQ [s1, s2, s3, s4, s5, a, b, c, d, e], request kind rq with
+      | some seup, some sedn, some nt, some rq =>
+          replyT (formdrm keyOf mks nt none seup rq sedn (gset = "1")) (fun r => showMQ r.1 ++ " | " ++ showL (flat2 r.2))
+      | _, _, _, _ => "bad-op"
   | ["addulvs", sedn, kc, sc, gset], [s1, s2, s3, s4, s5, a, b, c, d, e, u, ses] =>
       match sedn.toNat?, nasTOf [s1, s2, s3, s4, s5, a, b, c, d, e], ulvsOf u, nats ses with
       | some sedn, some nt, some ul, some ses =>
